@@ -6,6 +6,14 @@ import "fmt"
 // guards, nullable wrappers, and `gomacro:SQL` / `gomacro:QUERY` comment directives.
 func addSQLFeatures(g *gen) {
 	for i, s := range g.structs {
+		// table structs do not embed other table structs (both carry an id column)
+		var kept []Field
+		for _, f := range s.Fields {
+			if !f.Embedded {
+				kept = append(kept, f)
+			}
+		}
+		s.Fields = kept
 		// id field, in various spellings
 		idName := pick(g.rng, []string{"Id", "ID", "Id", "Id"})
 		idType := Basic("int64")
